@@ -401,7 +401,27 @@ fn cases(tier: Tier) -> Vec<Case> {
     let plain = |d: &str| d.contains("stream=false") && d.contains("early=0");
     let sized = move |d: &str| plain(d) && (tier == Tier::Thorough || !d.contains(" | "));
     let on_stream = move |d: &str| sized(d) && !d.contains("restart") && !d.contains("extras=None");
-    crate::check::widen(&|| base_cases(tier), &sized, &sized, Some(&on_stream))
+    let mut v = crate::check::widen(&|| base_cases(tier), &sized, &sized, Some(&on_stream));
+    // "a parent's child list" is a strong holder like any other: a child held by nothing else
+    // lives through a restart of its parent (the tree scenes of C16, reporting under C05)
+    {
+        use crate::props::{c02::Cause, c16::{Node, Reg, S}};
+        let root = Node { role: 0, parent: None, reg: Reg::Add, outside: false, outside_stops: false };
+        for reg in [Reg::Add, Reg::Ty(1)] {
+            let tree = vec![root, Node { role: 1, parent: Some(0), reg, outside: false, outside_stops: false }];
+            for cause in [Cause::StopClient, Cause::LastDrop] {
+                for mb in [Mailbox::U, Mailbox::B(1)] {
+                    v.push(Case {
+                        desc: format!("lifetime [held by the parent's child list only, parent restarted first] reg={reg:?} cause={cause:?} mailbox={}", mb.name()),
+                        exec: ExecCfg { horizon: 30, ..ExecCfg::default() },
+                        bound: None,
+                        scene: Box::new(S { nodes: tree.clone(), cause, bcasts: vec![(1, 601)], mailbox: mb, pid: "C05", restart_root: true, slow_stop: None, child_timers: false }),
+                    });
+                }
+            }
+        }
+    }
+    v
 }
 
 pub fn property() -> Property {
